@@ -149,6 +149,7 @@ type rCase struct {
 	Ecosystem string      `json:"ecosystem"`
 	Name      string      `json:"name"`
 	Version   string      `json:"version"`
+	Installed []string    `json:"installed,omitempty"` // phase K side-by-side: versions required by a1, b1
 	Affected  []rAffected `json:"affected"`
 }
 
@@ -856,10 +857,10 @@ var (
 	gSpelledLists                     atomic.Int64
 	gZoneLists                        atomic.Int64
 	gKTrouble                         atomic.Int64
-	gPhaseEvals                       [13]atomic.Int64 // A, B, C1, C2, D, D0, E, F, G, H, I, J, K
+	gPhaseEvals                       [14]atomic.Int64 // A, B, C1, C2, D, D0, E, F, G, H, I, J, K, K2
 )
 
-var phaseNames = []string{"A", "B", "C1", "C2", "D", "D0", "E", "F", "G", "H", "I", "J", "K"}
+var phaseNames = []string{"A", "B", "C1", "C2", "D", "D0", "E", "F", "G", "H", "I", "J", "K", "K2"}
 
 func safeCall(v *osvschema.Vulnerability, pkg *extractor.Package) (got bool, panicked any, stack string) {
 	defer func() {
@@ -1188,6 +1189,15 @@ func main() {
 		if e.osv != "PyPI" { // the universe kit writes package.json and pom.xml manifests
 			for vi := range kVersions {
 				items = append(items, workItem{"K", e, nil, vi})
+			}
+		}
+		if e.osv == "npm" { // two versions side by side: every ordered pair of ladder versions
+			for ai := range ladder {
+				for bi := range ladder {
+					if ai != bi {
+						items = append(items, workItem{"K2", e, nil, ai*len(ladder) + bi})
+					}
+				}
 			}
 		}
 		for qn := range e.names {
@@ -1545,6 +1555,14 @@ func main() {
 				}
 			}
 			distinct += runPhaseK(env, lists, &st)
+		case "K2":
+			va, vb := ladder[it.qn/len(ladder)], ladder[it.qn%len(ladder)]
+			env, err := newKEnv2(e, va, vb, filepath.Join(kdir, fmt.Sprintf("k2-%d", it.qn)))
+			if err != nil {
+				fmt.Fprintln(os.Stderr, "C18 harness error: phase K2 setup:", err)
+				os.Exit(3)
+			}
+			distinct += runPhaseK2(env, &st)
 		case "J":
 			// record ecosystems: the exact string counts; every other string never does — another
 			// known ecosystem, the exact string plus a ":suffix" (release / repository of ANOTHER
@@ -1807,7 +1825,7 @@ func replay(file string) int {
 		fmt.Fprintf(os.Stderr, "replay: unknown ecosystem %q\n", c.Ecosystem)
 		return 3
 	}
-	if c.Phase == "K" {
+	if c.Phase == "K" || c.Phase == "K2" {
 		return replayK(c, eco)
 	}
 	// every version in the record must be one the reference comparison understands
